@@ -344,7 +344,7 @@ def showBuf (s : Buffer.St) (extra : String) : String :=
   let files := (s.disk.mergeSort (fun a b => a.1 ≤ b.1)).map (fun p => s!"{p.1}:{hex p.2}")
   let c := s.c
   s!"p={c.pending} it={c.inT} ip={c.inP} co={c.consumed} lo={c.leftover} dr={c.dropped} io={c.ioErr} gc={c.gChunks} gb={c.gBytes} " ++
-  s!"q={c.qT + c.qP} out={s.outW.length} hand={if s.hand.isSome then 1 else 0} files={if files.isEmpty then "-" else ",".intercalate files}{extra}"
+  s!"q={c.qT + c.qP} qt={c.qT} out={s.outW.length} hand={if s.hand.isSome then 1 else 0} files={if files.isEmpty then "-" else ",".intercalate files}{extra}"
 
 def bufNew (st : DState) (m q b d fresh : String) : Option DState :=
   match m.toNat?, q.toNat?, b.toNat? with
@@ -587,6 +587,7 @@ def handle (st : DState) (line : String) : DState × String :=
   match fields line with
   | "flush" :: rest => (st, handleFlush rest)
   | "flushw" :: _ => (st, "any")   -- schedule of the wrapper run: the observations are judged by `flush consistent`
+  | "parsex" :: _ => (st, "any")   -- the input's composite parser (parser + extraction transforms): judged by the harness oracle only
   | "flushl" :: _ => (st, "any")   -- listener run: judged by `flush bound` and the harness oracle
   | "time" :: rest => (st, handleTime rest)
   | "parse" :: rest => handleParse st rest
